@@ -39,7 +39,8 @@ BUDGET = {
 }
 _MODULES = ["tiny", "words", "shapes", "floats", "zoo"]
 _OPS = ["insert", "insert", "delete", "delete_gracefully", "change_call", "change_type", "change_field", "mutate_value",
-        "mutate_call", "mutate", "mutate", "mutation_insert", "mutation_insert", "crossover", "crossover", "chop", "remove_unused", "clone", "new"]
+        "mutate_call", "mutate", "mutate", "mutation_insert", "mutation_insert", "crossover", "crossover", "chop", "remove_unused", "clone", "new",
+        "local_search"]
 _env: dict = {}
 _VAR = re.compile(r"var_\d+")
 
@@ -187,6 +188,35 @@ def run_case(case: dict) -> dict:
                     probes["crossover_applied"] += 1
                     check(b, "crossover", sb <= max_len)
                     bound_after = sa <= max_len
+            elif name == "local_search" and size:
+                # the real suite-level local search on the pool (edits the pool's test cases in place), with the
+                # per-statement probability raised and a seeded choice of search kinds
+                import pynguin.testcase.localsearch as lsm
+                from pynguin.testcase.localsearchtimer import LocalSearchTimer
+
+                lcfg = env.cfg.local_search
+                saved = (lcfg.local_search_probability, lcfg.local_search_same_datatype,
+                         lcfg.local_search_different_datatype, lcfg.local_search_collections,
+                         lcfg.local_search_complex_objects, lcfg.local_search_time)
+                lcfg.local_search_probability = 0.6
+                lcfg.local_search_same_datatype = op["pos"] < 0.7
+                lcfg.local_search_different_datatype = op["pos"] > 0.3
+                lcfg.local_search_collections = True
+                lcfg.local_search_complex_objects = True
+                lcfg.local_search_time = 10**9
+                try:
+                    suite = env.strategy.create_test_suite([c for c in pool if c.test_case.size() > 0])
+                    suite.get_fitness()
+                    timer = LocalSearchTimer()
+                    timer.start_timer()
+                    lsm.TestSuiteLocalSearch().local_search(suite, env.factory, env.executor, timer)
+                finally:
+                    (lcfg.local_search_probability, lcfg.local_search_same_datatype, lcfg.local_search_different_datatype,
+                     lcfg.local_search_collections, lcfg.local_search_complex_objects, lcfg.local_search_time) = saved
+                probes["local_search_runs"] = probes.get("local_search_runs", 0) + 1
+                for other in pool:
+                    if other is not a:
+                        check(other, name, False)
             elif name == "chop" and size:
                 tc.chop(pos)
             elif name == "remove_unused":
